@@ -5,6 +5,7 @@ exist at level X, only o2o's own rules have to be respected. Every instruction c
 (`m<N>` member names, `k<N>(..)` expressions) so that which instruction took effect is readable from the
 output tokens.
 """
+import re
 from .model import Instr, Field, Variant, Item, KINDS, kinds_of, name_for, FALLIBLE_NAME, TRAIT_SHORT
 
 MEMBER_MAP_NAMES = ["owned_into", "ref_into", "into", "from_owned", "from_ref", "from", "map_owned", "map_ref", "map",
@@ -339,7 +340,9 @@ def gen(g, profile=None):
 
 
 FOREIGN_ATTRS = ['serde(rename = "x")', 'doc = "text"', 'deprecated = "x"', 'must_use = "x"', "allow(dead_code)", "repr(C)", "cfg_attr(test, derive(Debug))", "doc(hidden)", "non_exhaustive",
-                 "table_name = schema::ENTITIES", 'note = concat!("a", "b")', "builder(default)", "validate(length(min = 1))", "pin_project", 'path = "x.rs"', "rustfmt::skip"]
+                 "table_name = schema::ENTITIES", 'note = concat!("a", "b")', "builder(default)", "validate(length(min = 1))", "pin_project", 'path = "x.rs"', "rustfmt::skip",
+                 # an attribute's argument is any delimited token tree: brackets and braces are as legal as parentheses
+                 "sqlx[rename = \"x\"]", "layout{align = 8}", "getset[get, set]", "tag{}"]
 TYPE_ONLY_FOREIGN = {"must_use", "repr", "non_exhaustive", "table_name", "pin_project"}
 
 
@@ -348,7 +351,7 @@ def add_foreign(g, it, n=1):
     from .model import Instr
     for _ in range(n):
         fa = g.pick(FOREIGN_ATTRS)
-        name = fa.split("(")[0].split(" ")[0].split(":")[0]
+        name = re.split(r"[(\[{ :]", fa)[0]
         members = it.fields if it.kind == "struct" else it.variants
         if name in TYPE_ONLY_FOREIGN or not members or g.chance(0.5):
             it.attrs.insert(g.r.randint(0, len(it.attrs)), Instr("foreign", "foreign", text=fa))
